@@ -32,6 +32,7 @@ def build_all(cfg, state):
         try:
             try:
                 state["facts"] = vcore.regen_consts(ov, cfg["groups"])
+                getattr(cfg["mod"], "regen_facts", lambda st: None)(state)
             except BuildError as e:
                 problems.append(("fatal", "constants extraction (hook) no longer builds: " + e.what, e.log))
                 return problems
